@@ -129,4 +129,78 @@ PROPS['C19'] = {
     'design_ref': '§6 C19',
 }
 
+SKEL_TB = "skeleton extractor (extract/, go/ast pretty-printer) and its dictionary of call targets; the structural predicates are Lean code (Conc/Skel.lean), evaluated by the kernel (decide +kernel, axiom propext only)"
+CONC_TB = TB_COMMON + [
+    SKEL_TB,
+    "modelled, not verified: sync.RWMutex / smutex latch semantics (exclusive writer, shared readers), sync/atomic; atomic sections under one lock are taken as serialisable; the controlled scheduler serialises goroutines at the yield points only",
+]
+
+for _pid, _mods in {'C03': ['ColumnVerif.Props.C03skel'], 'C11': ['ColumnVerif.Props.C11skel'], 'C12': ['ColumnVerif.Props.C12skel'],
+                    'C16': ['ColumnVerif.Props.C16skel'], 'C19': ['ColumnVerif.Props.C19skel']}.items():
+    PROPS[_pid]['modules'] += _mods
+    PROPS[_pid]['skeleton'] = True
+    PROPS[_pid]['trusted_base'] = PROPS[_pid]['trusted_base'] + [SKEL_TB]
+PROPS['C11']['runs'] = [{'mode': 'store'}, {'mode': 'sched'}]
+PROPS['C12']['runs'] = [{'mode': 'store'}, {'mode': 'sched'}]
+
+PROPS['C02'] = {
+    'title': 'Transactions are atomic: commit applies all, rollback leaves no trace',
+    'modules': ['ColumnVerif.Props.C02', 'ColumnVerif.Props.C02skel'],
+    'runs': [{'mode': 'store'}, {'mode': 'sched'}],
+    'skeleton': True,
+    'trusted_base': CONC_TB + STORE_TB[3:],
+    'assumptions': [
+        "rollback leaves no trace is proved for transactions without a successful insert; with one, the reservation stays (finding D8) and is visible while in flight (finding D17): both have counterexample theorems and KNOWN_FINDINGS entries",
+        "'commit applies all' is C01's fold theorem (per chunk pass); the composition inside commit is exercised by the correspondence and the reference oracle",
+    ],
+    'level_text': "Lean theorems over the executable transaction model: rollback is the identity on a quiescent store and never emits; buffered writes, deletions and key writes change nothing but the transaction (every key/insert operation changes at most fill and count: OnlyFill); a failed insert releases its offset and leaves every fill bit as before; counterexamples for D8/D17. Tied to the code by differential histories with rollbacks, failing inserts and in-flight observers, a Go-side reference oracle (dump before = dump after), and controlled schedules with an observer transaction between the yield points of inserting transactions.",
+    'technique': 'Lean 4 proof (frame theorems over the transaction functions) + model/implementation correspondence + controlled scheduling',
+    'design_ref': '§6 C02',
+}
+
+PROPS['C15'] = {
+    'title': 'The change stream is exactly-once, per-block ordered and identifiable',
+    'modules': ['ColumnVerif.Props.C15', 'ColumnVerif.Props.C15conc', 'ColumnVerif.Props.C15skel'],
+    'runs': [{'mode': 'store'}, {'mode': 'sched'}],
+    'skeleton': True,
+    'trusted_base': CONC_TB + STORE_TB[3:],
+    'assumptions': [
+        "the commit id counter is modelled in ℕ (wrap-around after 2^64 draws is outside the model)",
+        "'changed' is global to the transaction, as in the code: a transaction holding ops for a dropped column in another block emits a commit for that block too (observation recorded in DESIGN.md)",
+    ],
+    'level_text': "Lean theorems. Sequential (executable store model): a commit emits exactly one commit per dirty chunk, in ascending chunk order, with consecutive fresh ids, iff the transaction holds a row marker or a non-empty buffer of an existing column, and nothing otherwise (read-only, dropped columns, no logger, rollback). Schedule-quantified (small-step machine, any number of threads/chunks/steps): ids are fresh, non-zero and globally distinct; per chunk they increase in apply order when the id is drawn inside the latch — which the regenerated skeleton says it is — with an explicit counterexample run when it is not (defect D2, repaired); the logger receives each chunk's commits in apply order, each exactly once. Tied to the code by the regenerated skeleton (flag theorems), differential histories with a recording logger, and controlled schedules of racing writers with a stream oracle.",
+    'technique': 'Lean 4 proof (fold over dirty chunks; invariant over all reachable worlds) + regenerated protocol skeleton + correspondence + controlled scheduling',
+    'design_ref': '§6 C15',
+}
+
+PROPS['C09'] = {
+    'title': 'Concurrent merges are never lost',
+    'modules': ['ColumnVerif.Props.C09', 'ColumnVerif.Props.C09skel'],
+    'runs': [{'mode': 'sched'}, {'mode': 'store'}],
+    'skeleton': True,
+    'trusted_base': CONC_TB,
+    'assumptions': [
+        "the read-modify-write of a merge happens inside the chunk latch section (flag theorems over the regenerated skeleton: the commit closure runs between Lock and Unlock, Apply inside it)",
+        "the 'initial value' of an absent slot is whatever the slot holds (finding D11)",
+    ],
+    'level_text': "Lean theorems over the small-step commit machine (any number of threads, chunks, steps; arbitrary merge function): in every reachable world the merged value of a chunk equals the fold of the deltas of the commits applied to it, in apply order, over the initial value — no delta lost or applied twice; additive corollary; a thread that has read the value holds the latch and the value is current; each transaction contributes exactly one record per listed chunk. Tied to the code by the regenerated skeleton and controlled schedules of 2–3 writers merging into overlapping rows of 1–2 chunks with additive and order-sensitive merges (totals and emitted merge chains checked).",
+    'technique': 'Lean 4 proof (invariant over all reachable worlds of a small-step machine) + regenerated protocol skeleton + controlled scheduling',
+    'design_ref': '§6 C09',
+}
+
+PROPS['C10'] = {
+    'title': 'A reader never sees a half-applied commit on a row',
+    'modules': ['ColumnVerif.Props.C10', 'ColumnVerif.Props.C10skel'],
+    'runs': [{'mode': 'sched'}],
+    'skeleton': True,
+    'trusted_base': CONC_TB,
+    'assumptions': [
+        "partial: the theorem is about the latch protocol (writer exclusive, readers shared, callbacks inside RLock/RUnlock of the row's chunk — flag theorems); weak-memory effects and torn multi-word reads without a latch are not exhibited by any model here and are only observed by the race-detector runs of C18",
+        "Ascend takes no chunk latch and is not in the property's quantifier",
+    ],
+    'level_text': "PARTIAL. Lean theorems over the small-step machine: every observation a reader makes of two columns under one read-latch hold carries the same commit id, in every reachable world; the columns differ only while a writer is between its two column writes, holding the latch; readers exclude writers and vice versa. The regenerated skeleton establishes that QueryAt, rangeRead and rangeReadPair call the user function between RLock and RUnlock of the row's chunk (ChunkAt(index)). Tied to the code by controlled schedules with a reader parked inside its callback between two column reads while writers try to commit.",
+    'technique': 'Lean 4 proof (latch-protocol invariant) + regenerated protocol skeleton + controlled scheduling; runtime memory model not covered',
+    'design_ref': '§6 C10',
+}
+
 ALL_IDS = ['C%02d' % i for i in range(1, 20)]
